@@ -424,7 +424,8 @@ class MibCompiler(object):
                 debug.logger & debug.flagCompiler and debug.logger(
                     'no suitable compiled MIB %s found anywhere' % mibname)
 
-                if options.get('noDeps') and mibname not in canonicalMibNames:
+                if (options.get('noDeps') and mibname not in canonicalMibNames and
+                        mibname not in mibnames):
                     debug.logger & debug.flagCompiler and debug.logger(
                         'excluding imported MIB %s from code generation' % mibname)
                     del parsedMibs[mibname]
